@@ -13,6 +13,8 @@ GRAMMARS = {
     'pair': [('start', S(N('l', C('r')), OPT(T(',')), OPT(N('m', C('r'))))), ('r', A(N('x', T('a')), N('y', T('b'))))],
     'nested': [('start', S(N('a', C('mid')), EOF_)), ('mid', S(N('i', C('leaf')), OPT(N('j', C('leaf'))))), ('leaf', N('v', P('\\w')))],
     'retry': [('start', A(S(N('p', C('r')), T('x')), S(N('q', C('r')), OPT(T('y'))))), ('r', N('v', A(T('a'), T('b'))))],
+    # rules WITHOUT named elements (their AST is a string or a list): typed, their model nodes must still name the rule and delimit its match
+    'noname': [('start', S(REP(C('item')), OPT(C('num')), EOF_)), ('item', P('[a-z]')), ('num', S(P('[0-9]'), OPT(P('[0-9]'))))],
     'upper': [('start', S(N('t', C('Tok')), OPT(N('u', C('tok'))))), ('Tok', N('v', P('[ab]'))), ('tok', N('w', P('[ab]')))],
 }
 
